@@ -14,6 +14,7 @@ from base import main_loop, unique_schema_name
 
 SDL_T = """
 scalar Sc
+scalar Hd
 directive @d on FIELD_DEFINITION
 interface P { n: String }
 type A implements P { n: String }
@@ -21,7 +22,7 @@ type B implements P { n: String }
 type C implements P { n: String }
 input In { f: Int = %(k)d }
 enum E { COMMON  X%(k)d }
-type Query { v: String  sc: Sc  dv: String @d  p: P  p2: P  q(i: In, e: E): String }
+type Query { v: String  sc: Sc  hd: Hd  dv: String @d  p: P  p2: P  q(i: In, e: E): String }
 type Subscription { ev: String }
 """
 
@@ -40,6 +41,10 @@ def reg_a(t, k, sn):
 
     @t.Resolver("Query.sc", **kw)
     async def rsc(parent, args, ctx, info):
+        return "x"
+
+    @t.Resolver("Query.hd", **kw)
+    async def rhd(parent, args, ctx, info):
         return "x"
 
     @t.Resolver("Query.dv", **kw)
@@ -65,6 +70,30 @@ def reg_a(t, k, sn):
     @t.TypeResolver("P", **kw)
     def tr(result, ctx, info, abstract_type):
         return TYPES[k - 1]
+
+
+class Handle:
+    """ONE scalar class registered for every schema name of a history through stacked decorators
+    (`@Scalar("Hd", schema_name=a) @Scalar("Hd", schema_name=b) class Handle`): each registration gets its own instance,
+    so each engine numbers its handles from 1 whatever the other engines did"""
+    def __init__(self):
+        self.count = 0
+
+    def coerce_output(self, v):
+        self.count += 1
+        return "h%d" % self.count
+
+    def coerce_input(self, v):
+        return v
+
+    def parse_literal(self, ast):
+        return getattr(ast, "value", None)
+
+
+def register_shared(t, schema_names):
+    cls = Handle
+    for sn in schema_names:
+        cls = (t.Scalar("Hd") if sn is None else t.Scalar("Hd", schema_name=sn))(cls)
 
 
 class StatefulD:
@@ -101,6 +130,7 @@ def probe(eng, k):
     loop = main_loop()
     r = loop.run(eng.execute("{ v sc dv p { __typename } p2 { __typename } }"))
     r2 = loop.run(eng.execute("query ($i: In, $e: E) { q(i: $i, e: $e) }", variables={"i": {}, "e": "X%d" % k}))
+    hd = [(loop.run(eng.execute("{ hd }")).get("data") or {}).get("hd") for _ in range(2)]
 
     async def first():
         agen = eng.subscribe("subscription { ev }")
@@ -112,7 +142,7 @@ def probe(eng, k):
     d = r.get("data") or {}
     return {"resolvers": d.get("v"), "scalars": d.get("sc"), "directives": d.get("dv"),
             "type_resolvers": (d.get("p") or {}).get("__typename"), "subscriptions": (s.get("data") or {}).get("ev"),
-            "sdl": (r2.get("data") or {}).get("q"), "field_type_resolver": (d.get("p2") or {}).get("__typename"),
+            "sdl": (r2.get("data") or {}).get("q"), "shared_scalar_class": hd, "field_type_resolver": (d.get("p2") or {}).get("__typename"),
             "errors": (r.get("errors") or []) + (s.get("errors") or []) + (r2.get("errors") or [])}
 
 
@@ -125,9 +155,11 @@ def run_history(steps, use_default_for=None, tag=""):
     t = base.tartiflette()
     names = {}
     engines = {}
-    for b, s in steps:
+    for b, _s in steps:
         if b not in names:
             names[b] = None if b == use_default_for else unique_schema_name("reg%s" % tag)
+    register_shared(t, [names[b] for b in sorted(names)])
+    for b, s in steps:
         sn = names[b]
         if s == "regA":
             reg_a(t, b, sn)
@@ -156,6 +188,8 @@ def judge(rec, answers, how):
             continue
         if got.get("errors"):
             mm.append("%s: bundle %d probe errors %r" % (how, i, got["errors"][:2]))
+        if exp.get("resolvers") and len(exp["resolvers"]) == 1 and got.get("shared_scalar_class") != ["h1", "h2"]:
+            mm.append("%s: engine %d numbers the handles of the scalar class shared through stacked decorators %r, expected ['h1', 'h2']" % (how, i, got.get("shared_scalar_class")))
         for kind, owners in exp.items():
             want = expected(kind, owners[0]) if len(owners) == 1 else None
             if got.get(kind) != want:
